@@ -20,8 +20,9 @@ type c18Result struct{ N int }
 
 // notifSubscriber: one notifications subscription whose channel the environment feeds; closed on Close.
 type notifSubscriber struct {
-	mu  sync.Mutex
-	chs []chan *message.Message
+	mu   sync.Mutex
+	chs  []chan *message.Message
+	ctxs []context.Context
 }
 
 func (s *notifSubscriber) Subscribe(ctx context.Context, topic string) (<-chan *message.Message, error) {
@@ -29,6 +30,7 @@ func (s *notifSubscriber) Subscribe(ctx context.Context, topic string) (<-chan *
 	defer s.mu.Unlock()
 	ch := make(chan *message.Message)
 	s.chs = append(s.chs, ch)
+	s.ctxs = append(s.ctxs, ctx)
 	return ch, nil
 }
 func (s *notifSubscriber) Close() error { return nil }
@@ -181,6 +183,7 @@ func HarnessC18Listen() {
 			vrt.Assert(c18FinishedAt.Sub(t0) <= timeout, "the listener ends when the timeout passes, however often replies arrive meanwhile")
 		}
 		vrt.Assert(vrt.Live("requestreply.PubSubBackend") == 0, "the listener goroutine terminates after the caller cancelled or the timeout passed")
+		vrt.Assert(sub.ctxs[0].Err() != nil, "and gives its subscription on the reply topic back (the subscription context has ended)")
 		vrt.Assert(finished == 1, "OnListenForReplyFinished runs exactly once")
 		vrt.Assert(vrt.IsClosed(replies) || vrt.ChanLen(replies) > 0, "the reply channel is closed")
 	})
@@ -244,6 +247,69 @@ func HarnessC18TwoListeners() {
 		vrt.Assert(got[0] == 1 && got[1] == 1, "each caller got exactly the one reply of its command")
 		vrt.Assert(finished[0] == 1 && finished[1] == 1, "OnListenForReplyFinished runs exactly once per request")
 		vrt.Assert(vrt.Live("requestreply.PubSubBackend") == 0, "both listener goroutines terminate")
+	})
+}
+
+// c18Bus is a scripted command bus: it fails, or "sends" the command by remembering the operation id the request
+// put on the command message.
+type c18Bus struct {
+	fail   bool
+	opID   string
+	sent   int
+	sentCh chan struct{}
+}
+
+func (b *c18Bus) SendWithModifiedMessage(ctx context.Context, cmd any, modify func(*message.Message) error) error {
+	if b.fail {
+		return errScripted
+	}
+	m := message.NewMessage("cmd", nil)
+	if err := modify(m); err != nil {
+		return err
+	}
+	b.opID = m.Metadata.Get(OperationIDMetadataKey)
+	b.sent++
+	close(b.sentCh)
+	return nil
+}
+
+// HarnessC18Send: the front door. SendWithReplies / SendWithReply over the real PubSubBackend and a scripted command
+// bus: when sending the command fails the listener that was already started is stopped again; when it succeeds the
+// caller gets the reply produced for its operation id and, after its cancel (or after SendWithReply returned), the
+// listener terminates: OnListenForReplyFinished exactly once.
+func HarnessC18Send() {
+	finished := 0
+	sub := &notifSubscriber{}
+	b := c18Backend(sub, &c18Pub{}, &finished, false)
+	bus := &c18Bus{fail: vrt.Bool("send.fails"), sentCh: make(chan struct{})}
+	single := vrt.Bool("SendWithReply")
+	if !bus.fail {
+		go func() { // the handler side: one reply for the operation, once the command was sent
+			vrt.MayBlock()
+			<-bus.sentCh
+			n := c18Notification(bus.opID, 42, false)
+			sub.chs[0] <- n
+			<-n.Acked()
+		}()
+	}
+	if single {
+		r, err := SendWithReply[c18Result](context.Background(), bus, b, &struct{}{})
+		vrt.Assert((err != nil) == bus.fail, "SendWithReply fails exactly when the command cannot be sent")
+		if err == nil {
+			vrt.Assert(r.Error == nil && r.HandlerResult.N == 42, "the caller gets the reply of its command")
+		}
+	} else {
+		replies, cancel, err := SendWithReplies[c18Result](context.Background(), bus, b, &struct{}{})
+		vrt.Assert((err != nil) == bus.fail, "SendWithReplies fails exactly when the command cannot be sent")
+		if err == nil {
+			r := <-replies
+			vrt.Assert(r.Error == nil && r.HandlerResult.N == 42, "the caller gets the reply of its command")
+		}
+		cancel()
+	}
+	vrt.AtQuiescence(func() {
+		vrt.Assert(vrt.Live("requestreply.PubSubBackend") == 0, "the listener goroutine terminates (also when the command could not be sent)")
+		vrt.Assert(finished == 1, "OnListenForReplyFinished runs exactly once")
 	})
 }
 
